@@ -1454,9 +1454,19 @@ func EnumPaths(from, to *ssa.BasicBlock, max int) (paths []BlockPath, ok bool) {
 }
 
 // PhiOnPath resolves value v along a block path: phis are replaced by the edge value selected by
-// the predecessor on the path (repeatedly).
+// the predecessor on the path (repeatedly); a load of a local cell (a named result that a defer
+// forces into memory) is replaced by the value of the last store to the cell on the path.
 func PhiOnPath(v ssa.Value, path BlockPath) ssa.Value {
 	for i := 0; i < 16; i++ {
+		if ld, isLoad := v.(*ssa.UnOp); isLoad && ld.Op == token.MUL {
+			if cell, isCell := ld.X.(*ssa.Alloc); isCell {
+				if sv := lastStoreOnPath(cell, ld, path); sv != nil {
+					v = sv
+					continue
+				}
+			}
+			return v
+		}
 		phi, ok := v.(*ssa.Phi)
 		if !ok {
 			return v
@@ -1499,4 +1509,31 @@ func EdgeTaken(path BlockPath, b *ssa.BasicBlock) int {
 		}
 	}
 	return -1
+}
+
+// lastStoreOnPath: the value of the last whole-cell store to cell that precedes the load on the path
+// (nil when there is none on the path).
+func lastStoreOnPath(cell *ssa.Alloc, load ssa.Instruction, path BlockPath) ssa.Value {
+	end := -1
+	for k, b := range path {
+		if b == load.Block() {
+			end = k
+		}
+	}
+	if end < 0 {
+		return nil
+	}
+	for k := end; k >= 0; k-- {
+		instrs := path[k].Instrs
+		hi := len(instrs)
+		if k == end {
+			hi = InstrIndex(load)
+		}
+		for j := hi - 1; j >= 0; j-- {
+			if st, ok := instrs[j].(*ssa.Store); ok && st.Addr == ssa.Value(cell) {
+				return st.Val
+			}
+		}
+	}
+	return nil
 }
